@@ -108,18 +108,25 @@ Definition ds_ghi (d : dsum) : bool := mem GHI (ds_columns d).
 Record hstate := {
   clusters : table;
   ts_features : list Z;
-  warnings : list Z
+  warnings : list Z;
+  hidden : Z                  (* whatever else of `self` the fitted-predict path writes (a cache, a counter, ...): not part of
+                                 the document, not understood by this model — only THAT it is written is known *)
 }.
 
 (* which statements the source contains on the predict path *)
 Record hcfg := {
   assigns_back : bool;        (* self._df_temporal_clusters = <table corrected for this data set> *)
   appends_warning : bool;     (* self.warnings.append(<reporting data has GHI, model has not>) *)
-  extends_features : bool     (* self._ts_features.append(<supplemental column first seen in reporting data>) *)
+  extends_features : bool;    (* self._ts_features.append(<supplemental column first seen in reporting data>) *)
+  writes_other_state : bool   (* any other in-place write into something reachable from `self` on the fitted-predict path
+                                 (self.x[k] = v, self.x.update(...), self.x.loc[...] = v, inplace=True, ...) that is not on the
+                                 translator's list of writes that cannot change an output *)
 }.
-Definition pure_cfg : hcfg := {| assigns_back := false; appends_warning := false; extends_features := false |}.
+Definition pure_cfg : hcfg :=
+  {| assigns_back := false; appends_warning := false; extends_features := false; writes_other_state := false |}.
 (* the code as it was found (before /repo 6b499d87 removed the first assignment) *)
-Definition ascoded_cfg : hcfg := {| assigns_back := true; appends_warning := true; extends_features := true |}.
+Definition ascoded_cfg : hcfg :=
+  {| assigns_back := true; appends_warning := true; extends_features := true; writes_other_state := false |}.
 
 (* the table corrected for the combinations of this data set (correct_missing_temporal_clusters):
    None = the nearest-profile branch has nothing to compare with and raises *)
@@ -135,7 +142,9 @@ Definition new_supp (s : hstate) (d : dsum) : list Z := filter (fun c => negb (m
 
 Inductive hout :=
 | HErr                                   (* the call raises *)
-| HPred (ds : Z) (assign : table).       (* a prediction computed with this cluster label for every (month, day) of the data *)
+| HPred (ds : Z) (assign : table) (seen : Z).
+    (* a prediction computed with this cluster label for every (month, day) of the data; `seen`: the unmodelled state the
+       call could read (0 when the source writes none): the model cannot exclude that the result depends on it *)
 
 Definition nonempty {A} (l : list A) : bool := match l with [] => false | _ => true end.
 
@@ -148,7 +157,7 @@ Definition predict_out (cfg : hcfg) (fill : combo -> Z) (s : hstate) (d : dsum) 
        | Some t =>
            if extends_features cfg && nonempty (new_supp s d) then HErr
            else if ds_late_exc d then HErr
-           else HPred (ds_id d) (reindex t (ds_combos d))
+           else HPred (ds_id d) (reindex t (ds_combos d)) (if writes_other_state cfg then hidden s else 0)
        end.
 
 (* the specification: the prediction of the stored model for the data, computed without touching the model *)
@@ -160,12 +169,13 @@ Definition next_state (cfg : hcfg) (fill : combo -> Z) (s : hstate) (d : dsum) :
   else
     let w := if appends_warning cfg && ds_ghi d && negb (mem GHI (ts_features s))
              then warnings s ++ [MISMATCH_WARNING] else warnings s in
+    let h := if writes_other_state cfg then hidden s + 1 else hidden s in
     match corrected fill (clusters s) d with
-    | None => {| clusters := clusters s; ts_features := ts_features s; warnings := w |}
+    | None => {| clusters := clusters s; ts_features := ts_features s; warnings := w; hidden := h |}
     | Some t =>
         {| clusters := if assigns_back cfg then t else clusters s;
            ts_features := if extends_features cfg then ts_features s ++ new_supp s d else ts_features s;
-           warnings := w |}
+           warnings := w; hidden := h |}
     end.
 
 Definition predict_step (cfg : hcfg) (fill : combo -> Z) (s : hstate) (d : dsum) : hstate * hout :=
@@ -187,4 +197,4 @@ Definition hstep (cfg : hcfg) (s : hstate) (o : hop) : hstate :=
 Definition hrun (cfg : hcfg) (s : hstate) (ops : list hop) : hstate := fold_left (hstep cfg) ops s.
 
 (* the serialised form as far as these fields go *)
-Definition abs (s : hstate) : table * list Z * list Z := (clusters s, ts_features s, warnings s).
+Definition abs (s : hstate) : table * list Z * list Z * Z := (clusters s, ts_features s, warnings s, hidden s).
